@@ -80,7 +80,15 @@ namespace
             auto& key = arr->at(0);
             auto& value = arr->at(1);
             // ToDo: Check key-type matches
-            data->map()[capture_key(key)] = value;
+            auto captured = capture_key(key);
+            // the map must not end up holding itself (directly, or through arrays / other maps)
+            auto holds_map = [&](value::cref val) { return !val.empty() && (val.data().get() == data.get() || val.data()->contains(data.get())); };
+            if (holds_map(captured) || holds_map(value))
+            {
+                runtime.__logmsg(err::ArrayRecursion(runtime.context_active().current_frame().diag_info_from_position()));
+                return {};
+            }
+            data->map()[captured] = value;
         }
         else
         {
